@@ -63,6 +63,8 @@ type env struct {
 	serveDone chan struct{}
 	sig       chan struct{} // poked on every state change
 
+	wmu           sync.Mutex // serialises peer writes
+	delivering    int        // workload 2: replies the responder is still delivering (under mu)
 	mu            sync.Mutex
 	serveErr      error
 	servePanic    bool
@@ -276,6 +278,9 @@ func newEnv(c *core.Case) (*env, error) {
 }
 
 func (e *env) peerWrite(s string) {
+	// record and wire order must agree: the driver and the peer loop both write
+	e.wmu.Lock()
+	defer e.wmu.Unlock()
 	e.mu.Lock()
 	e.sent = append(e.sent, s...)
 	e.mu.Unlock()
